@@ -9,7 +9,8 @@ EXPLANATION = (
     "Must-pass-through and data-dependence rules on the DNS client/server: in DnsClient::get_host_by_name every call "
     "from which the call graph reaches the wire (and the socket creation) is dominated by the cache-miss arm, the hit "
     "arm returns the cached value, the miss arm stores the answer before returning, and nothing ever removes a cache "
-    "entry; DnsServer answers with the address looked up under the query's name and echoes the query's id and names. "
+    "entry; (D-SOURCE) get_host_by_name reduced to a formula: every address it can return is get_mapping(self, name), the "
+    "client's table entry of the name asked; DnsServer answers with the address looked up under the query's name and echoes the query's id and names. "
     "Decides the cache clause (no frame for a cached name) and the echo/lookup wiring for all inputs and schedules; "
     "does not decide that the right address arrives for all record sets and interleavings (runtime behaviour).")
 ASSUMPTIONS = []
